@@ -55,8 +55,12 @@ func setEngineEnv(dir string) {
 	environment.SetPathParamsDirectory(filepath.Join(dir, "path_params"))
 	environment.SetProcessorsDirectory(registryDir)
 	os.Setenv("LUNAR_STREAMS_ENABLED", "true")
-	os.Setenv("LUNAR_RETRY_REQUEST_TIMEOUT_SEC", "600")
+	os.Setenv("LUNAR_RETRY_REQUEST_TIMEOUT_SEC", fmt.Sprint(engineRetryTimeoutS))
 }
+
+// engineRetryTimeoutS is the retry request timeout the next engine is built with
+// (one scenario per process sets it before newEngine).
+var engineRetryTimeoutS = 600
 
 // newEngine builds and initialises a real streams.Stream from files.
 func newEngine(s *kernel.Sim, files map[string]string) (*engineEnv, error) {
